@@ -30,6 +30,7 @@ class Str(Node): _fields = ('s',)
 class Null(Node): _fields = ()
 class Bin(Node): _fields = ('op', 'a', 'b')          # + - *
 class UMinus(Node): _fields = ('e',)                 # unary minus
+class Builtin(Node): _fields = ('name', 'args')      # Greatest / Least
 class ListE(Node): _fields = ('items',)
 class RecE(Node): _fields = ('fields',)              # [(name, expr)]
 class Field(Node): _fields = ('e', 'name')
@@ -119,6 +120,8 @@ def rx(e):
     return 'null'
   if isinstance(e, Bin):
     return '(%s %s %s)' % (rx(e.a), e.op, rx(e.b))
+  if isinstance(e, Builtin):
+    return '%s(%s)' % (e.name, ', '.join(rx(a) for a in e.args))
   if isinstance(e, UMinus):
     return '(-%s)' % rx(e.e) if isinstance(e.e, (Bin, Var)) else '(-(%s))' % rx(e.e)
   if isinstance(e, ListE):
